@@ -9,7 +9,9 @@ Open Scope list_scope.
 Record sync_case := {
   sc_trace : list lev;
   sc_store : list cid;               (* the runtime's store at the end *)
-  sc_plugins : list plugin_obs       (* per plugin: registered, snapshot ids received, create ids received (in order) *)
+  sc_plugins : list plugin_obs;      (* per plugin INSTANCE: registered (live at the end), snapshot ids received, create ids received (in order) *)
+  sc_must : list pid                 (* instances that connected, whose synchronisation did not fail and that did not
+                                        disconnect, in a run that ended with no block held: their registration must be complete *)
 }.
 
 Definition sc_obs (c : sync_case) : observation := {| ob_store := sc_store c; ob_plugins := sc_plugins c |}.
@@ -39,7 +41,12 @@ Definition corr_sync (c : sync_case) : bool :=
   end.
 
 (* the property's predicate on the implementation's observations alone *)
-Definition holds_sync (c : sync_case) : bool := exactly_once_b (sc_obs c).
+Definition is_registered (l : list plugin_obs) (n : pid) : bool :=
+  match find_plugin n l with Some po => po_registered po | None => false end.
+
+(* exactly once for every live instance, and "once the last block is released pending registrations complete" *)
+Definition holds_sync (c : sync_case) : bool :=
+  exactly_once_b (sc_obs c) && forallb (is_registered (sc_plugins c)) (sc_must c).
 
 (* for replay files: where the log stops being a run of the LTS *)
 Definition first_rejected (c : sync_case) : option nat :=
